@@ -72,11 +72,13 @@ PROPS = {
                         "from_path_proofs is only fed unordered input of length 2 (longer unordered input can make the real loop spin exponentially long)"],
     },
     "C16": {
+        "tags": ['C16', 'C01'],
         "runs": IMG_CORPUS + [{"cmd": "image-prefix-shrink", "mode": "image", "cases": {"quick": 1, "thorough": 1}, "corpus": True}, dict(IMG_RUN)],
         "rule": IMG_RULE,
         "trusted_base": IMG_TB, "assumptions": IMG_ASSUME,
     },
     "C19": {
+        "tags": ['C19'],
         "runs": [{"cmd": "image-leak", "mode": "image", "cases": {"quick": 1, "thorough": 1}, "corpus": True, "leaks_fail": True},
                  {"cmd": "image-cycles", "mode": "image", "args": ["--cycles", "10", "--keys", "300"], "cases": {"quick": 1, "thorough": 1}, "corpus": True, "leaks_fail": True},
                  {"cmd": "image-cycles", "mode": "image", "args": ["--cycles", "8", "--keys", "2500"], "cases": {"quick": 0, "thorough": 1}, "corpus": True, "leaks_fail": True, "thorough_only": True},
@@ -107,6 +109,8 @@ PROPS = {
     },
     # ---------------- API-level properties: history engine (harness/src/db.rs) vs Lean `api` model ----------------
     "C01": {
+        "lines": ['read', 'dread', 'commit', 'trycommit', 'ocommit', 'otrycommit', 'seqn', 'init', 'begin', 'sdrop', 'fdrop', 'odrop'],
+        "tags": ['C01'],
         "runs": DB_SCN(["empty-store-delete-only", "overwrite-huge-value-with-rollback"]) + IMG_CORPUS + [
             {"cmd": "image-prefix-shrink", "mode": "image", "cases": {"quick": 1, "thorough": 1}, "corpus": True},
             DB("kv", 160, 1600, nops=16, big=True),
@@ -117,28 +121,38 @@ PROPS = {
         "trusted_base": API_TB, "assumptions": API_ASSUME,
     },
     "C02": {
+        "lines": ['root', 'finish', 'overlay', 'reopen', 'rootof', 'buildtrie', 'setkv'],
+        "tags": ['C02'],
         "runs": [DB("kv", 120, 1200, nops=14), DB("kv", 6, 60, nops=16, scale=100, shards_q=6), DB("overlay", 60, 600, nops=14),
                  {"cmd": "core-pp", "mode": "core", "cases": {"quick": 300, "thorough": 6000}, "shards": {"quick": 4, "thorough": 16}}],
         "rule": DB_RULE + " C02: every root reported by the real code (session base, finished session, overlay, Nomt::root, after reopen/rollback) is compared with the Lean specification function nodeAt executed on the model's key-value list (Blake3 implemented in Lean) and with the harness reference trie.",
         "trusted_base": API_TB, "assumptions": API_ASSUME,
     },
     "C05": {
+        "lines": ['prove'],
+        "tags": ['C05'],
         "runs": [DB("kv", 120, 1200, nops=14), DB("overlay", 80, 800, nops=14), DB("reopen", 60, 600, nops=14), DB("kv", 4, 40, nops=14, scale=100, shards_q=4)],
         "rule": DB_RULE + " C05: Session::prove for present keys, absent keys diverging from a present key at interesting depths (page boundaries 6k-1..6k+1, just below the terminal, 246..255) and random keys, on plain / overlay sessions, cold caches after reopen; the proof object must equal the Lean proveSpec (terminal + every sibling) and verify + confirm the session's view with the real verifier.",
         "trusted_base": API_TB, "assumptions": API_ASSUME,
     },
     "C09": {
+        "lines": ['rollback', 'root', 'dread', 'seqn', 'reopen', 'commit', 'trycommit'],
+        "tags": ['C09', 'C01', 'C02'],
         "runs": DB_SCN(["stale-nonblocking-then-rollback", "reopen-resurrects-pruned-delta", "rollback-all-then-reopen", "overwrite-huge-value-with-rollback"]) + [
             DB("rollback", 200, 2000, nops=18), DB("general", 80, 800, nops=16, big=True), CHURN],
         "rule": DB_RULE + " C09 focus: max_rollback_log_len in {1,2,3,5}; rollback(n) with n in {0,1,2,len,len+1}; rollbacks after reopen, after stale commits, over overlay commits and large values; the oracle keeps the previous committed maps.",
         "trusted_base": API_TB, "assumptions": API_ASSUME + ["segment roll-over of the rollback log needs the segment-size hook (not yet installed): covered only through the 64 MiB default, i.e. not reached by quick runs"],
     },
     "C11": {
+        "lines": ['begin', 'read', 'prove', 'finish', 'overlay', 'ocommit', 'otrycommit', 'root', 'odrop', 'sdrop', 'dread'],
+        "tags": ['C11', 'C01', 'C02', 'C05'],
         "runs": DB_SCN(["rejected-overlay-marks-committed"]) + [DB("overlay", 200, 2000, nops=18), DB("general", 60, 600, nops=16)],
         "rule": DB_RULE + " C11 focus: overlay trees (chains, sibling forks, dropped and committed ancestors), sessions on every live fork, wrong / incomplete / reordered ancestor lists, in-order and out-of-order overlay commits.",
         "trusted_base": API_TB, "assumptions": API_ASSUME,
     },
     "C12": {
+        "lines": ['commit', 'trycommit', 'ocommit', 'otrycommit', 'root', 'seqn', 'rollback', 'dread'],
+        "tags": ['C12', 'C09', 'C01', 'C02'],
         "runs": DB_SCN(["stale-nonblocking-then-rollback", "rejected-overlay-marks-committed"]) + [DB("reject", 200, 2000, nops=16), DB("general", 60, 600, nops=16)],
         "rule": DB_RULE + " C12 focus: pairs of changesets on one base committed in both orders and flavours (blocking / non-blocking, session / overlay), rollback in between, non-blocking commits while a session is alive; after every rejected or deferred attempt root, seqn, values and the result of later rollbacks are compared.",
         "trusted_base": API_TB, "assumptions": API_ASSUME,
@@ -162,6 +176,7 @@ PROPS = {
         "trusted_base": DISK_TB, "assumptions": DISK_ASSUME + ["bucket exhaustion is exercised by the API histories with small tables (not yet at every allocation index)"],
     },
     "C10": {
+        "tags": ['C10', 'C01', 'C02', 'C05', 'C09'],
         "runs": DB_SCN(["reopen-resurrects-pruned-delta", "rollback-all-then-reopen"]) + [DB("reopen", 200, 2000, nops=18), DB("reopen", 6, 60, nops=16, big=True, scale=50, shards_q=6), DB("rollback", 60, 600, nops=16),
                  CRASH("crash", "reopen", 2, 20, steps=1, shards_q=2), CHURN],
         "rule": DB_RULE + " C10 focus: the handle is dropped and reopened (with an independently drawn runtime configuration: workers, cache sizes, io workers, warm-up, prepopulation, upper levels) at random positions, up to half of all steps; after every reopen root, sync_seqn, sampled values, hash_table_utilization().occupied (must equal the pre-close value) and all later commits / rollbacks are compared with a model that ignores close/open.",
@@ -174,6 +189,8 @@ PROPS = {
         "trusted_base": API_TB, "assumptions": ["thread interleavings are whatever the runs happen to exhibit (sampled, not enumerated)", "sha2 hasher variant not exercised (engine is instantiated with Blake3)"],
     },
     "C06": {
+        "lines": ['witness'],
+        "tags": ['C06'],
         "runs": DB_SCN(["witness-many-workers"]) + [DB("kv", 200, 2000, nops=14), DB("overlay", 80, 800, nops=14), DB("kv", 6, 60, nops=14, scale=60, shards_q=6), DB("general", 60, 600, nops=14)],
         "rule": DB_RULE + " C06: half of all sessions (all in the directed scenario) run with WitnessMode::read_write(); the real witness is (i) verified path by path against the base root, every read confirmed with the real verifier and compared with the session's view, every write matched against the batch, and replayed with the real verify_update against the reported new root (oracle), and (ii) canonicalised and compared byte-for-byte with the Lean witnessSpec. Batches mix reads, writes, read-then-writes, deletes of absent keys, several keys per terminal, 1..64 workers.",
         "trusted_base": API_TB, "assumptions": API_ASSUME,
@@ -187,6 +204,7 @@ PROPS = {
                         "reopen after drop is retried for up to 3 s (the lock is released by whichever thread drops the last reference to the store); the number of retries needed is reported"],
     },
     "C17": {
+        "tags": ['C17'],
         "runs": [{"cmd": "placement", "mode": "image", "args": ["--focus", "general", "--nops", "14"], "cases": {"quick": 24, "thorough": 320}, "shards": {"quick": 8, "thorough": 16}},
                  {"cmd": "placement", "mode": "image", "args": ["--focus", "kv", "--nops", "12", "--scale", "40", "--big"], "cases": {"quick": 4, "thorough": 32}, "shards": {"quick": 4, "thorough": 16}},
                  {"cmd": "placement", "mode": "image", "args": ["--focus", "rollback", "--nops", "14"], "cases": {"quick": 8, "thorough": 96}, "shards": {"quick": 4, "thorough": 16}}],
